@@ -404,7 +404,7 @@ func (ch c12) cancel(c *core.Ctx, cfg c12config, stage string) {
 func (ch c12) Run(c *core.Ctx) {
 	ncfg, perCfg, groups := 30, 25, 30
 	if c.Tier == "thorough" {
-		ncfg, perCfg, groups = 300, 30, 600
+		ncfg, perCfg, groups = 1200, 30, 2400
 	}
 	idx := 0
 	for ci := 0; ci < ncfg; ci++ {
